@@ -54,11 +54,17 @@ def c_cop(op):
     return f"CMut ({H.c_op(op)})"
 
 
+def c_cop2(op):
+    if op[0] == "QTR":
+        return f"CTrav {'T' + op[1][0] + op[1][1:].lower()} None {op[2]} Fwd UNb None"
+    return f"C1 ({c_cop(op)})"
+
+
 class CacheHistory(Leg):
     name = "cachehist"
-    imports = "From EG Require Import Base State Nbrs Struct StructCheck Cache CacheCheck."
-    checkfn = "ccheck"
-    case_type = "list (cop * (outcome * state))"
+    imports = "From EG Require Import Base State Nbrs Struct StructCheck Cache CacheCheck CacheTrav."
+    checkfn = "ccheck2"
+    case_type = "list (cop2 * (outcome * state))"
     rule = ("lock-step histories (8-26 steps) interleaving every link mutator (from either end, the edge itself, explicit.unlink, "
             "link_from_to), toggles of Vertex.NEIGHBOR_CACHING at arbitrary points, and neighbors() queries drawn from 5 argument "
             "keys over a pool of <=5 vertices (so the same key is asked again after mutations), plus bft/dft traversals; every "
@@ -167,15 +173,13 @@ class CacheHistory(Leg):
             return None
         items = []
         for op, r in zip(case["ops"], obs):
-            if op[0] == "QTR":
-                continue          # traversals are judged by the oracle (cached vs uncached); the model history skips them
             out = r["out"]
             co = H.c_outcome(out) if out[0] != "list" else f"Ret (VList {H.c_oids(out[1])})"
-            items.append(f"({c_cop(op)}, ({co}, {H.c_state(r['snap'])}))")
+            items.append(f"({c_cop2(op)}, ({co}, {H.c_state(r['snap'])}))")
         return C.clist(items, str)
 
     def model_value(self, case, obs):
-        return "ctranscript empty " + C.clist([c_cop(o) for o in case["ops"] if o[0] != "QTR"], str)
+        return "ctranscript2 empty " + C.clist([c_cop2(o) for o in case["ops"]], str)
 
     def nontrivial(self, case, obs):
         if obs is None:
